@@ -478,9 +478,16 @@ def apply_rewrites(src, mask, it, ed, stats, spec_entry):
         if not re.match(r'[A-Za-z_][\w.]*\[', recv): continue
         ed.replace(j + 1, lo + m.end(), 'crate::spec::to_string_w(&%s)' % recv)
         stats['R11_to_string'] = stats.get('R11_to_string', 0) + 1
-    # ... and a bare parameter of reference type: `P.to_string()` => `to_string_w(P)`
+    # ... and a bare parameter / annotated local of reference type: `P.to_string()` => `to_string_w(P)`
     sig11 = src[it['kw']:it['body_start']]
-    for pm in re.finditer(r'\b([a-z_]\w*)\s*:\s*&\s*(?:\'\w+\s+)?([A-Z]\w*)\b', sig11):
+    refnames = [pm.group(1) for pm in re.finditer(r'\b([a-z_]\w*)\s*:\s*&\s*(?:\'\w+\s+)?([A-Z]\w*)\b', sig11)]
+    refnames += [pm.group(1) for pm in re.finditer(r'\blet\s+([a-z_]\w*)\s*:\s*&\s*([A-Z]\w*)\b', body)]
+    for pm in re.finditer(r'\blet\s*\(([^()]*)\)\s*:\s*\(([^()]*)\)\s*=', body):      # the tuple binding R8 emits for an inlined helper
+        ns = [x.strip() for x in pm.group(1).split(',')]; ts = [x.strip() for x in pm.group(2).split(',')]
+        if len(ns) == len(ts):
+            refnames += [n for n, t in zip(ns, ts) if re.match(r'&\s*[A-Z]\w*$', t) and re.match(r'[a-z_]\w*$', n)]
+    for rn in dict.fromkeys(refnames):
+        pm = re.match(r'(.*)', rn)
         for m in re.finditer(r'(?<![\w.\]])%s\.to_string\(\)' % re.escape(pm.group(1)), body):
             if mask[lo + m.start()] != ord('c'): continue
             ed.replace(lo + m.start(), lo + m.end(), 'crate::spec::to_string_w(%s)' % pm.group(1))
@@ -539,6 +546,63 @@ def apply_rewrites(src, mask, it, ed, stats, spec_entry):
         ed.replace(lhs_lo, end, '%s{ let r4_t%d = %s; %s = %s %s r4_t%d; }' % (lead, k, r7_rewrite_string(rhs), lhs, lhs, op2, k))
         k += 1; stats['R4_compound'] += 1
     return
+
+
+def fn_binders(src, mask, it):
+    """ordered (kind, name) list of the names a function binds: parameters, let / for / Some(..)|Ok(..)|Err(..) patterns, `{ items: x }`"""
+    out = []
+    sig_lo, body_lo, hi = it['kw'], it['body_start'], it['end']
+    pats = [('param', r'[(,]\s*(?:mut\s+)?([a-z_]\w*)\s*:(?!:)'),]
+    for m in re.finditer(pats[0][1], src[sig_lo:body_lo]):
+        if mask[sig_lo + m.start(1)] == ord('c'): out.append((sig_lo + m.start(1), 'param', m.group(1)))
+    body = src[body_lo:hi]
+    for kind, rx in [('let', r'\blet\s+(?:mut\s+)?([a-z_]\w*)\b(?!\s*\()'), ('let', r'\blet\s*\(\s*(?:mut\s+)?([a-z_]\w*)\s*,\s*(?:mut\s+)?([a-z_]\w*)\s*\)'),
+                     ('for', r'\bfor\s+([a-z_]\w*)\s+in\b'), ('for', r'\bfor\s*\(\s*([a-z_]\w*)\s*,\s*([a-z_]\w*)\s*\)\s+in\b'),
+                     ('pat', r'\b(?:Some|Ok|Err)\(\s*(?:mut\s+)?([a-z_]\w*)\s*\)\s*(?:=>|=(?!=))'), ('pat', r'\{\s*items\s*:\s*([a-z_]\w*)\s*\}'), ('pat', r'List\s*\{\s*(items)\s*\}'),
+                     ('clo', r'\|\s*&?\s*([a-z_]\w*)\s*\|'), ('clo', r'\|\s*([a-z_]\w*)\s*,\s*([a-z_]\w*)\s*\|')]:
+        for m in re.finditer(rx, body):
+            for g in range(1, (m.lastindex or 0) + 1):
+                a = body_lo + m.start(g)
+                if mask[a] == ord('c'): out.append((a, kind, m.group(g)))
+    out.sort()
+    return [(k, n) for _, k, n in out if not n.startswith('_') and not re.match(r'r\d+_', n) and n not in ('self', 'mut')]
+
+
+def binder_renames(then, now):
+    """old -> new for the binders that were merely renamed since the overlays were written.  The two binder lists are aligned
+    (difflib on kind+name); inside a replaced stretch of equal length and equal kinds the names are paired position by position.
+    A pair is used only if the old name is gone from the function, the new name is fresh, and the old name has a single target --
+    so reordering statements, adding locals or removing locals never renames anything."""
+    if not then or not now: return {}
+    import difflib
+    then_names = set(n for _, n in then); now_names = set(n for _, n in now)
+    cand = {}
+    sm = difflib.SequenceMatcher(a=then, b=now, autojunk=False)
+    for tag, i1, i2, j1, j2 in sm.get_opcodes():
+        if tag != 'replace' or (i2 - i1) != (j2 - j1): continue
+        if any(then[i1 + d][0] != now[j1 + d][0] for d in range(i2 - i1)): continue
+        for d in range(i2 - i1):
+            o, n = then[i1 + d][1], now[j1 + d][1]
+            if o != n: cand.setdefault(o, set()).add(n)
+    ren = {}
+    for o, ns in cand.items():
+        if len(ns) != 1: continue
+        n = next(iter(ns))
+        if o in now_names or n in then_names: continue
+        ren[o] = n
+    if len(set(ren.values())) != len(ren): return {}
+    return ren
+
+
+def rename_in_overlay(text, ren):
+    if not ren or not text: return text
+    lines = []
+    for ln in text.split('\n'):
+        if ln.strip().startswith('//bind'): lines.append(ln); continue
+        for o, n in ren.items():
+            ln = re.sub(r'(?<![\w.>:$])%s(?![\w(])' % re.escape(o), n, ln)
+        lines.append(ln)
+    return '\n'.join(lines)
 
 
 def resolve_placeholders(text, fn_src, path):
@@ -914,6 +978,13 @@ def _assemble(repo, spec, rows=None, canary=None, opts=None):
                 return  # trait method declaration
             stats['fns_total'] += 1
             e = spec.fn.get(fn_path(mod, it) if path_override is None else path_override.split('@')[0])
+            if e and opts.get('known_binders') is not None:
+                # locals renamed since the overlays were written are followed (only pure renames: see binder_renames)
+                ren = binder_renames([tuple(x) for x in opts['known_binders'].get((path_override or fn_path(mod, it)).split('@')[0], [])], fn_binders(src, mask, it))
+                if ren:
+                    e = dict(e, text=rename_in_overlay(e['text'], ren), loops={k: rename_in_overlay(t, ren) for k, t in e['loops'].items()},
+                             proofs={k: rename_in_overlay(t, ren) for k, t in e['proofs'].items()})
+                    stats['binder_renames'] = stats.get('binder_renames', 0) + len(ren)
             kind = 'verified'
             reason = ''
             base_path = path.split('@')[0]
